@@ -856,7 +856,13 @@ htp_status_t htp_connp_RES_HEADERS(htp_connp_t *connp) {
                 // connp->out_next_byte == LF
                 OUT_PEEK_NEXT(connp);
                 lfcrending = 0;
-                if (connp->out_next_byte == CR) {
+                // This LF may complete a CR LF pair whose CR was the last byte of the
+                // previous chunk (and is now buffered); a CR that follows it then belongs
+                // to the next line, exactly as when the pair arrives in one piece.
+                int crlf_across_chunks = (connp->out_current_read_offset == 1) &&
+                        (connp->out_buf != NULL) && (connp->out_buf_size > 0) &&
+                        (connp->out_buf[connp->out_buf_size - 1] == CR);
+                if (connp->out_next_byte == CR && !crlf_across_chunks) {
                     // hanldes LF-CR sequence as end of line
                     OUT_COPY_BYTE_OR_RETURN(connp);
                     lfcrending = 1;
